@@ -317,6 +317,8 @@ PROPS["C13"] = dict(
     rule=("a case = placement + will + watcher subscriptions + cause. Non-trivial = hosting-node failure, or watchers on >= 2 nodes. Distinct = distinct case."),
     assumptions=["gossip fully delivered before the cause", "a retained will is expected to be replayed to a later subscriber like any retained publish"],
     runs=[
+        # a session accepted during an outage of the broker links, learnt by the survivors through push/pull only, then its node fails
+        dict(name="outage", pkg="c13", run="TestWillAfterOutage", timeout=600),
         dict(name="regress", pkg="c13", run="TestRegress", timeout=300),
         dict(name="random", pkg="c13", run="TestRandom", checks=dict(quick=960, thorough=8000), shards=16, timeout=dict(quick=400, thorough=2400), shrinktime="90s"),
         dict(name="nodefail", pkg="c13", run="TestNodeFailure", checks=dict(quick=48, thorough=800), shards=16, timeout=dict(quick=400, thorough=2400), shrinktime="120s"),
@@ -609,7 +611,7 @@ PROPS["C20"] = dict(
     assumptions=["every goroutine writes only its own keys (reads go anywhere)", "publishers cut off by the broker's 800 ms hand-over budget under the race detector are not judged (counted)"],
     runs=[
         dict(name="regress", pkg="c20", run="TestRegress", race=True, timeout=300),
-        dict(name="structs", pkg="c20", run="TestStructs", race=True, checks=dict(quick=800, thorough=12000), shards=16, timeout=dict(quick=400, thorough=2400)),
+        dict(name="structs", pkg="c20", run="TestStructs", race=True, checks=dict(quick=800, thorough=12000), shards=16, timeout=dict(quick=400, thorough=2400), shrinktime="20s"),
         dict(name="storm", pkg="c20", run="TestStorm", race=True, checks=dict(quick=480, thorough=8000), shards=16, timeout=dict(quick=400, thorough=2400)),
         # the in-flight table's concurrent programs live in the C04 package; they are part of this property too
         dict(name="inflight", pkg="c04", run="TestConcurrent", race=True, checks=dict(quick=1600, thorough=8000), shards=dict(quick=4, thorough=16), timeout=dict(quick=300, thorough=1800)),
